@@ -392,3 +392,141 @@ func ReplayHistory(sc Scenario, chk Checker, names []string) ([]Viol, []string, 
 	log = append(log, pre.Describe(w.Cast)...)
 	return out, log, nil
 }
+
+// RunHistories executes an enumerated, prefix-closed family of straight-line histories (a grid of
+// parameters rather than a search). The histories are merged into a trie; every trie edge is one
+// executed transition (transition oracles), every distinct state reached gets the state oracles.
+func (e *Explorer) RunHistories(hists [][]int) (Stats, []Found) {
+	start := time.Now()
+	var stats Stats
+	if e.Workers <= 0 {
+		e.Workers = runtime.NumCPU()
+	}
+	worlds := make([]*World, e.Workers)
+	var wg sync.WaitGroup
+	for i := range worlds {
+		wg.Add(1)
+		go func(i int) { defer wg.Done(); worlds[i] = NewWorld(e.Sc.GP) }(i)
+	}
+	wg.Wait()
+	// trie: parent prefix -> set of next actions
+	type node struct {
+		prefix []int
+		next   []int
+	}
+	index := map[string]*node{}
+	var nodes []*node
+	for _, h := range hists {
+		for d := 0; d < len(h); d++ {
+			k := histKey(h[:d])
+			n, ok := index[k]
+			if !ok {
+				n = &node{prefix: append([]int{}, h[:d]...)}
+				index[k] = n
+				nodes = append(nodes, n)
+			}
+			dup := false
+			for _, x := range n.next {
+				if x == h[d] {
+					dup = true
+					break
+				}
+			}
+			if !dup {
+				n.next = append(n.next, h[d])
+			}
+		}
+	}
+	stats.Exhaustive = true
+	var idx int64 = -1
+	var trans, ok, fail, states, sc, tc int64
+	var abort int32
+	// work items: the root and every node whose parent branches; single-child chains are followed
+	// in place (no re-materialisation)
+	var items []*node
+	for _, n := range nodes {
+		if len(n.prefix) == 0 {
+			items = append(items, n)
+			continue
+		}
+		if par := index[histKey(n.prefix[:len(n.prefix)-1])]; len(par.next) > 1 {
+			items = append(items, n)
+		}
+	}
+	for wi := 0; wi < e.Workers; wi++ {
+		wg.Add(1)
+		go func(w *World) {
+			defer wg.Done()
+			for {
+				i := atomic.AddInt64(&idx, 1)
+				if i >= int64(len(items)) || atomic.LoadInt32(&abort) == 1 {
+					return
+				}
+				if !e.Deadline.IsZero() && i%256 == 0 && time.Now().After(e.Deadline) {
+					atomic.StoreInt32(&abort, 1)
+					return
+				}
+				n := items[i]
+				st := e.materialise(w, n.prefix)
+				preDump := w.Dump(st)
+				pre := Decode(preDump)
+			chain:
+				if len(n.prefix) == 0 && e.visit(preDump.Hash()) {
+					atomic.AddInt64(&states, 1)
+					for _, v := range e.Chk.CheckState(w, pre, st) {
+						e.record(v, nil, -1)
+					}
+				}
+				for _, ai := range n.next {
+					a := e.Sc.Alphabet[ai]
+					post, res := applyAction(w, st.Branch(), a)
+					atomic.AddInt64(&trans, 1)
+					postDump, postSnap := preDump, pre
+					if a.Gap > 0 || res.OK {
+						postDump = w.Dump(post)
+						postSnap = Decode(postDump)
+					}
+					if a.Gap == 0 {
+						if res.OK {
+							atomic.AddInt64(&ok, 1)
+						} else {
+							atomic.AddInt64(&fail, 1)
+						}
+					}
+					atomic.AddInt64(&tc, 1)
+					t := &TransCtx{W: w, Act: a, Res: res, Pre: pre, Post: postSnap, PreSt: st, PostSt: post, PreDump: preDump, PostDump: postDump}
+					for _, v := range e.Chk.CheckTrans(t) {
+						e.record(v, n.prefix, ai)
+					}
+					if e.visit(postDump.Hash()) {
+						atomic.AddInt64(&states, 1)
+						atomic.AddInt64(&sc, 1)
+						for _, v := range e.Chk.CheckState(w, postSnap, post) {
+							e.record(v, n.prefix, ai)
+						}
+					}
+					if len(n.next) == 1 {
+						if c, ok := index[histKey(append(append([]int{}, n.prefix...), ai))]; ok {
+							if !(a.Gap > 0 || res.OK) {
+								post = st
+							}
+							n, st, preDump, pre = c, post, postDump, postSnap
+							goto chain
+						}
+					}
+				}
+			}
+		}(worlds[wi])
+	}
+	wg.Wait()
+	stats.States, stats.Transitions, stats.TxOK, stats.TxFail, stats.StateChecks, stats.TransChecks = states, trans, ok, fail, sc, tc
+	if abort == 1 {
+		stats.Exhaustive = false
+		stats.Deadline = true
+	}
+	for i := 0; i < 3 && i < len(hists); i++ {
+		e.samples = append(e.samples, e.names(hists[(i*104729)%len(hists)]))
+	}
+	stats.Wall = time.Since(start)
+	return stats, e.found
+}
